@@ -39,6 +39,11 @@ def _entries(h, rng, n):
     return out
 
 
+def UUID_ZERO():
+    from hippolyzer.lib.base.datatypes import UUID
+    return UUID()
+
+
 LEAVES = ["ChatFromViewer", "CompletePingCheck", "AgentUpdate", "*", "LLUDP", "EQ", "Nope", "Chat*",
           "ChatFromViewer.ChatData.Channel == 524", "ChatFromViewer.ChatData.Message ~= 'foo'", "ChatFromViewer.ChatData.Message ^= 'he'",
           "*.*.PingID > 100", "*.*.PingID & 1", "AgentUpdate.AgentData.Far >= 100", "AgentUpdate.AgentData.CameraCenter == (1, 2, 3)",
@@ -101,6 +106,50 @@ def bounded_filters(reg, tier, seed):
                     leaf_truth[(leaf, i)] = False
                     fail("filters/leaf-error", f"leaf {leaf!r} raised {type(ex).__name__}: {ex} on a {e.name} entry (inapplicable comparison must be false)",
                          {"filter": leaf, "entry": e.name})
+        # (1b) subfield selectors (Msg.Block.Var.Subfield) with wildcards in the subfield position: "some selected subfield
+        # satisfies the comparison" - against a reference that walks the decoded subfields itself
+        import fnmatch as _fn
+        import struct as _st
+        from hippolyzer.lib.base.message.message import Message as _M, Block as _B
+        from hippolyzer.lib.base.network.transport import Direction as _D
+        od = _st.pack("<15f", 5.0, 5.0, 5.0, 0.0, 0.0, 0.0, 0.25, 0.25, 0.25, 0.0, 0.0, 0.0, 2.0, 2.0, 2.0)
+        ou = _M("ObjectUpdate", _B("RegionData", RegionHandle=1, TimeDilation=1),
+                _B("ObjectData", ID=1, State=0, FullID=UUID_ZERO(), CRC=0, PCode=9, Material=0, ClickAction=0, Scale=(1.0, 1.0, 1.0),
+                   ObjectData=od, ParentID=0, UpdateFlags=0, PathCurve=0, ProfileCurve=0, PathBegin=0, PathEnd=0, PathScaleX=0, PathScaleY=0,
+                   PathShearX=0, PathShearY=0, PathTwist=0, PathTwistBegin=0, PathRadiusOffset=0, PathTaperX=0, PathTaperY=0,
+                   PathRevolutions=0, PathSkew=0, ProfileBegin=0, ProfileEnd=0, ProfileHollow=0, TextureEntry=b"", TextureAnim=b"",
+                   NameValue=b"", Data=b"", Text=b"", TextColor=b"\x00" * 4, MediaURL=b"", PSBlock=b"", ExtraParams=b"\x00",
+                   Sound=UUID_ZERO(), OwnerID=UUID_ZERO(), Gain=0.0, Flags=0, Radius=0.0, JointType=0, JointPivot=(0.0, 0.0, 0.0),
+                   JointAxisOrAnchor=(0.0, 0.0, 0.0)), packet_id=77, direction=_D.IN)
+        e_ou = LLUDPMessageLogEntry(ou, h.session.regions[0], h.session)
+        try:
+            decoded = ou["ObjectData"][0].deserialize_var("ObjectData", make_copy=False)
+            decoded = getattr(decoded, "value", decoded) if not isinstance(decoded, dict) else decoded     # tagged union: the value
+        except Exception as ex:  # noqa
+            decoded = None
+            fail("filters/subfield", f"harness: ObjectUpdate.ObjectData.ObjectData does not decode: {ex!r}", {})
+        if isinstance(decoded, dict):
+            for pat in ("Position", "Velocity", "Acceleration", "*", "*ion", "Vel*", "A*", "Nope*"):
+                for oper, lit in (("<", "(1, 1, 1)"), (">", "(1, 1, 1)"), ("==", "(0, 0, 0)"), (None, None)):
+                    flt = f"ObjectUpdate.ObjectData.ObjectData.{pat}" + (f" {oper} {lit}" if oper else "")
+                    keys = [k for k in decoded.keys() if _fn.fnmatchcase(str(k), pat)]
+                    if oper is None:
+                        want = bool(keys)
+                    else:
+                        from hippolyzer.lib.proxy.message_filter import LiteralValue as _LV
+                        litv = _LV(eval(lit))
+                        want = any(e_ou._val_matches(oper, decoded[k], litv) for k in keys)
+                    evals += 1
+                    seen.add(("subfield", flt))
+                    try:
+                        node = compile_filter(flt)
+                        for sc in (True, False):
+                            got = bool(node.match(e_ou, sc))
+                            if got != want:
+                                fail("filters/subfield", f"{flt!r} (short_circuit={sc}) evaluates to {got}; some selected subfield "
+                                     f"{'satisfies' if want else 'does not satisfy'} it (selected: {keys})", {"filter": flt, "short_circuit": sc})
+                    except Exception as ex:  # noqa
+                        fail("filters/subfield", f"{flt!r} raised {type(ex).__name__}: {ex}", {"filter": flt})
         # _val_matches directly: every operator x value-type pair
         from hippolyzer.lib.proxy.message_filter import LiteralValue
         vals = [0, 5, 2.5, "abc", b"ab", None, (1.0, 2.0, 3.0), True]
